@@ -9,7 +9,23 @@ only = sys.argv[2:]
 props = {json.loads(l)['id']: json.loads(l) for l in open('/verif/properties.jsonl')}
 os.makedirs('/tmp/seedprompts', exist_ok=True)
 extra = ""
-if suffix >= 'e':
+if suffix >= 'f':
+    extra = ("\nFor diversity, do NOT use any of these ideas (they have been used in earlier rounds): shared buffers / maps / "
+             "prototype objects; aliasing through spare slice capacity or shared pointers; errors.Is vs == for io.EOF; captured "
+             "loop variables; swapped defers; break vs continue; a wrong index in the select tables; a mutated package-level "
+             "error; a dropped or split lock; a renamed serialised field; a helper taken from the wrong side; a variadic "
+             "opts... argument dropped in a wrapper closure; > vs >= at a size threshold; waiting for one task instead of all; "
+             "reflect AssignableTo vs identity; stable vs unstable sort; a context cancelled when a function returns; skipping "
+             "empty fragments or empty messages; clearing a pending list before it was used; a non-blocking send that drops an "
+             "item; an atomic counter re-read after the increment; a pre-handler skipped or repeated on resume; a cursor not "
+             "reset between mappings. The property is realised by SEVERAL features of the framework working together: look for a "
+             "slip at the seam between TWO of them (state handlers x interrupts, branches x field mappings, callbacks x "
+             "streams of nested graphs, checkpoints x stream conversion, call options x nested chains / parallels, input / "
+             "output keys x branches, static values x streams, multi-agent hand-off x callbacks, tools node x checkpoints, "
+             "step limits x nested graphs, cancellation x eager scheduling ...), where each feature alone still works and "
+             "each has tests of its own. Before you edit, write down THREE candidates in three different files, each naming "
+             "the two features it needs; implement the one whose two features are least likely to be tested together.\n")
+elif suffix >= 'e':
     extra = ("\nFor diversity, do NOT use any of these idea families (they have been used in earlier rounds): a buffer / map / "
              "prototype object allocated once and shared between runs or calls; merging or appending in place into an input "
              "(aliasing through spare slice capacity or a shared pointer); errors.Is instead of == for io.EOF; a loop variable "
